@@ -35,6 +35,7 @@ def actionOfJson (j : Json) : Option Action := do
     pure (.deliver (tyOf (← nat "ty")) (← int "remote") (← int "purpose") (← int "dir") (← int "phys")
       (← (jField? j "fields").bind jInts?))
   else if a == "poll" then pure .poll
+  else if a == "rejected" then pure (.rejected (← nat "sub"))
   else if a == "wait" then
     pure (.wait (← nat "sub") (← (jField? j "kind").bind jStr? |>.bind kindOf) (← int "addr") (← nat "lo") (← nat "hi"))
   else none
